@@ -185,7 +185,7 @@ CHECKS = {
         "technique": "deterministic simulation: the C04 histories with size invariants evaluated after every operation (document cache, query-result cache, recent-write tier at insert return)",
         "rule": "the C04 histories (same generator and configuration swarm incl. capacities {1,2,5,50}, query-cache capacities {1,2,5,50}, hard limits {1,2,5,200}, all strategies, pokes in odd runs); after EVERY step: cache_size() <= capacity "
                 "(A/B splitter: each arm <= capacity and the sum <= 2 x capacity), QueryHashCache::len() <= capacity, hot_tier().len() <= hard limit whenever an insert has returned; content of what was evicted/drained is covered by "
-                "C04's read oracle in the same runs. A quarter of the budget goes to concurrent rows: 2-3 caller threads x 1-3 operations (65% inserts, searches, point reads, deletes, drains, metadata merges) over 2-6 ids with hard limit 1-3 and cache capacities 1/2/5 under the seeded scheduler (6 schedules per program); hot_tier().len() <= hard limit is read by each thread right after each of its inserts returns, the cache capacities at the quiescent end. evaluations = steps (sequential) and inserts (concurrent) after which the bounds were evaluated. distinct_nontrivial as C04 plus distinct decision traces of the concurrent rows.",
+                "C04's read oracle in the same runs. A quarter of the budget goes to concurrent rows: 2-3 caller threads x 1-3 operations (65% inserts, searches, point reads, deletes, drains, metadata merges) over 2-6 ids with hard limit 1-3 and cache capacities 1/2/5 under the seeded scheduler (6 schedules per program); hot_tier().len() <= hard limit is read by each thread right after each of its inserts returns, the cache capacities at the quiescent end. evaluations = steps (sequential) and inserts (concurrent) after which the bounds were evaluated. distinct_nontrivial as C04 plus distinct decision traces of the concurrent rows. A third of the concurrent programs are similarity programs (query-cache threshold 0.95: a cached search, paraphrases of it racing with deletes / overwrites of the cached documents) whose quiescent end issues capacity + 2 pairwise distant searches with the bound read after each.",
         "assumptions": ["the semantic adapter's auxiliary embedding store is recorded, not judged (the statement names the document cache, the query-result cache and the recent-write tier)"],
         "expected_probes": ["document_cache_full", "query_cache_full", "emergency_drain"],
         "tiers": {"quick": {"runs_per_worker": 1000000, "budget_s": 30}, "thorough": {"runs_per_worker": 10000000, "budget_s": 600}},
